@@ -324,7 +324,37 @@ impl<'a, 'e, T: IteTable<'a, BddPtr<'a>> + Default> Sw<'a, 'e, T> {
             }
             Op::Materialise(t) => (Ok(self.ptr_of(*t)), *t),
         };
-        self.check(res, want, &op)
+        let is_ite = matches!(op, Op::Ite(..));
+        let r = self.check(res, want, &op);
+        // chained step: the returned diagram is itself used as an operand (conditioned and
+        // quantified on every variable); done for ite results, whose pointers are otherwise
+        // only evaluated
+        let chain = match &op {
+            Op::Ite(g, _, _) => !self.cfg.full_ite || (0..n).any(|v| *g == tt::lit(v, true, n) || *g == tt::lit(v, false, n)),
+            _ => false,
+        };
+        if let (true, Some(r)) = (chain && is_ite, r) {
+            for v in 0..n {
+                let l = VarLabel::new(v as u64);
+                for (what, got, exp) in [
+                    ("condition(true)", guarded(|| b.condition(r, l, true)), tt::cofactor(want, v, true, n)),
+                    ("condition(false)", guarded(|| b.condition(r, l, false)), tt::cofactor(want, v, false, n)),
+                    ("exists", guarded(|| b.exists(r, l)), tt::exists(want, v, n)),
+                ] {
+                    self.rep.transitions += 1;
+                    match got {
+                        Err(p) => self.viol("C01", "panic", format!("{} on variable {} of the result of {:?} panicked: {}", what, v, op, p), &op),
+                        Ok(g) => {
+                            let gt = bdd_tt(g, n);
+                            if gt != exp {
+                                self.viol("C01", "wrong-function", format!("{} on variable {} of the result of {:?} [{}] returned {:#x}, the definition gives {:#x}", what, v, op, self.cfg.json(), gt, exp), &op);
+                            }
+                        }
+                    }
+                }
+            }
+        }
+        r
     }
 
     /// pointer of a function of the current variable set: the canonical pointer recorded for it
@@ -574,6 +604,28 @@ fn sweep<'a, 'e, T: IteTable<'a, BddPtr<'a>> + Default>(
             if ii % 8 == 0 && (ctx.over_time() || ctx.over_mem()) {
                 s.rep.cap("wall-clock or memory cap inside the ite sweep");
                 break;
+            }
+        }
+        // literal guards: ite(x or !x, g, h) for every variable and every ordered pair (g, h) of
+        // materialised functions (the guard's variable above, between, below or equal to the
+        // branches' top variables: every shortcut of the standard-triple code)
+        if !cfg.full_ite && !s.stop && n >= 2 {
+            'l: for v in 0..n {
+                for pol in [true, false] {
+                    let g = tt::lit(v, pol, n);
+                    for &j in perm.iter() {
+                        for &k in perm.iter() {
+                            s.issue(Op::Ite(g, j as TT, k as TT));
+                        }
+                        if s.stop {
+                            break 'l;
+                        }
+                    }
+                    if ctx.over_time() || ctx.over_mem() {
+                        s.rep.cap("wall-clock or memory cap inside the literal-guard ite sweep");
+                        break 'l;
+                    }
+                }
             }
         }
         s.recheck_pool();
